@@ -1,4 +1,5 @@
 import CarModel.Driver.Scan
+import CarModel.Driver.Idx
 namespace Car.Driver
 
 structure DState where
@@ -17,6 +18,7 @@ def step (st : DState) (line : String) : DState × String × String :=
     else if fam == "reset" then ({ tbl := [] }, "skip", "")
     else if fam == "scan" then let r := famScan H kv; (st, r.1, r.2)
     else if fam == "mut" then let r := famMut H kv; (st, r.1, r.2)
+    else if fam == "idx" then let r := famIdx kv; (st, r.1, r.2)
     else (st, "bad-op", "")
 
 partial def loop (h : IO.FS.Stream) (out : IO.FS.Stream) (st : DState) : IO Unit := do
